@@ -89,6 +89,18 @@ def binop(ex, op, a, b):
 def percent_format(ex, fmt, args):
     if not isinstance(args, tuple):
         args = (args,)
+    # type discipline of the conversion specifiers first (it does not depend on the values): a numeric conversion applied to something that
+    # is not a number, or a wrong number of arguments, raises TypeError
+    import re
+    from .terms import T as _T
+    from .values import Obj as _Obj, Arr as _Arr
+    if isinstance(fmt, str) and '%(' not in fmt:
+        specs = [m for m in re.findall(r'%[-+ #0]*(?:\d+|\*)?(?:\.(?:\d+|\*))?[hlL]?([diouxXeEfFgGcrsa%])', fmt) if m != '%']
+        if len(specs) != len(args):
+            ex.raise_exc('TypeError', 'not all arguments converted during string formatting' if len(specs) < len(args) else 'not enough arguments for format string', 0)
+        for c, a in zip(specs, args):
+            if c in 'diouxXeEfFgG' and (a is None or isinstance(a, (str, list, dict, tuple, set, _Obj, _Arr, SStr))):
+                ex.raise_exc('TypeError', 'must be real number, not %s' % (a.clsname if isinstance(a, _Obj) else type(a).__name__), 0)
     if all(isinstance(a, (str, int, float)) for a in args):
         return fmt % args
     raise Unsupported('%-format with symbolic values')
